@@ -33,6 +33,7 @@ type qKnobs struct {
 	NullVars      bool // nullable variables are sometimes bound to an explicit null
 	ReuseVarNames bool // operations of one document number their variables from v0 again
 	NoNestedFrag  bool // no fragment spread inside a fragment definition
+	NoID          bool // the client never asks for id (every id in a response was put there by the planner)
 }
 
 type GenQuery struct {
@@ -177,6 +178,9 @@ func (g *qGen) fieldsOf(t *TypeSpec) []*FieldSpec {
 			out = append(out, fl)
 		}
 	}
+	if g.k.NoID && len(out) > 1 && t.Kind != "ROOT" {
+		out = out[1:]
+	}
 	return out
 }
 
@@ -264,8 +268,15 @@ func (g *qGen) selections(t *TypeSpec, depth int, top bool) []string {
 			}
 		}
 		if depth <= 0 && !scalarNames[fl.Type.Named] {
-			// at the bottom only scalars (id is always there)
-			fl = fs[0]
+			// at the bottom only scalars (id is always there -- unless the client never asks for it: then
+			// some other scalar if the type has one)
+			fl = &FieldSpec{Name: "id", Type: TypeRef{Named: "ID", NonNull: true}}
+			for _, cand := range fs {
+				if scalarNames[cand.Type.Named] {
+					fl = cand
+					break
+				}
+			}
 			if t.Kind == "ROOT" {
 				continue
 			}
